@@ -44,7 +44,8 @@ def gen_exhaustive(kmax):
         npos = len(adv) + 1
         for k in range(kmax + 1):
             for poss in itertools.combinations_with_replacement(range(npos), k):
-                for cmds in itertools.product(CMDS, repeat=k):
+                # `u` = spurious wake-up of the condition wait (kept out of the largest bound)
+                for cmds in itertools.product(CMDS + ["u"] if k <= 2 else CMDS, repeat=k):
                     toks = list(pre)
                     j = 0
                     for p in range(npos):
@@ -67,7 +68,7 @@ def gen_random(g, n, lo, hi):
         for _ in range(L):
             x = g.r.random()
             if x < pc:
-                toks.append(g.r.choice(["r", "r", "s", "s", "b", "b", "t"] if g.r.random() < 0.8 else CMDS))
+                toks.append(g.r.choice(["r", "r", "s", "s", "b", "b", "t", "u"] if g.r.random() < 0.8 else CMDS))
             else:
                 toks.append("a0" if g.r.random() < p0 else "a1")
         post = g.r.choice([[], [], [], ["r"], ["j"], ["r", "j"], ["b", "s", "j"], ["t", "a1", "r", "a1"]])
@@ -141,6 +142,9 @@ def parse_words(words):
         if w in ("hang", "j:hang"):
             ev.append(("hang",))
             continue
+        if w.endswith(":alive") or w.endswith(":early"):
+            ev.append(("alive",))
+            continue
         if len(f) < 5:
             ev.append(("junk", w))
             continue
@@ -154,7 +158,11 @@ def parse_words(words):
                     ev.append(("S", int(e[1:])))
                 elif e[0] == "E":
                     ev.append(("E", int(e[1:])))
-        if tok in ("j", "jt"):
+                elif e[0] == "X":
+                    ev.append(("foreign", e[1:]))
+                elif e == "A":
+                    ev.append(("late",))
+        if tok in ("j", "jt", "jw"):
             ev.append(("J", int(f[3]), int(f[4])))
         else:
             ev.append(("obs", f[2], int(f[3]), int(f[4])))
@@ -214,6 +222,10 @@ def clauses(ev):
         elif k == "hang":
             if td:
                 bad.append("teardown-wait-hangs")
+        elif k == "alive" or k == "late":
+            bad.append("thread-alive-after-wait-returned")
+        elif k == "foreign":
+            bad.append("callback-on-controller-thread")
         elif k == "ended":
             ended = True
         elif k == "rdone":
@@ -287,6 +299,10 @@ def parse_free(out):
             ev.append(("E", int(w[1:])))
         elif w == "P":
             ev.append(("ended",))
+        elif w == "A":
+            ev.append(("late",))
+        elif w[0] == "X":
+            ev.append(("foreign", w[1:]))
         elif w[0] == "<":
             init_in_window = False
             if w[1] == "r":
@@ -319,9 +335,12 @@ def finalize(ctx, scheds):
                 pre.append((toks + ["j"], kind + ":hang"))
             else:
                 # teardown, then the join — with run_condition() true for ever in every other case
-                pre.append((toks + ["t", "jt" if idx % 2 else "j"] + post, kind + ":td"))
+                pre.append((toks + ["t", "jt" if idx % 2 else ("jw" if idx % 4 == 0 else "j")] + post, kind + ":td"))
         elif "t" in toks and idx % 2:
             pre.append((toks + ["jt"] + post, kind + ":jt"))
+        elif idx % 5 == 2:
+            # wait() called while the thread is still held: it must not return before the thread has ended
+            pre.append((toks + ["jw"] + post, kind + ":jw"))
         else:
             pre.append((toks + ["j"] + post, kind))
     second = vlib.run_driver(["life cur " + " ".join(t) for t, _ in pre])
